@@ -20,14 +20,20 @@ def lim(name, *a, overlap=None, **kw):
 
 
 _Q = ('quick', 'thorough')
+_T = ('thorough',)
 INSTANCES = [
     # serial sink fed by a serial generator: worker and caller both run sink tasks
     lim('g_s_p1', 1, 1, tiers=_Q),
     lim('g_s_p2', 2, 1, tiers=_Q),
-    # stage(f, 2) in the middle on a 2-thread pool: 3 threads could overlap, at most 2 may
+    # stage(f, 2) in the middle on a 2-thread pool; witness shows two overlapping invocations
     lim('g_x2_s_p2', 2, 2, l1=2, depth=2, overlap=1, tiers=_Q),
-    # generator with limit 2 on a 2-thread pool (two generator tasks) feeding a serial sink
-    lim('g2_s_p2', 2, 1, gl=2, depth=2, tiers=_Q),
     # overloaded pool: stages run inline inside their predecessors
     lim('g_x_s_p1_c2', 1, 2, ctx=2, tiers=_Q),
+    # thorough
+    lim('g2_s_p2', 2, 1, gl=2, depth=2, tiers=_T, timeout=3000),       # generator limit 2 (two generator tasks), 352 paths
+    lim('g_x2_s_p2_i3', 2, 2, l1=2, items=3, pq=6, mq=3, unwind=5, tiers=_T, timeout=3000),  # 3 items x 3 threads: limit 2 can be exceeded
+    lim('g_x_x_s_p2', 2, 3, tiers=_T, timeout=3000),                   # three serial stages on 2 threads
+    lim('g_xu_s_p2', 2, 2, l1=99, tiers=_T, timeout=3000),             # unlimited stage never fails the check; serial sink behind it
+    lim('g_s_p2_any', 2, 1, any_=1, tiers=_T, timeout=3000),
+    lim('single_p2', 2, 0, tiers=_T), lim('single2_p2', 2, 0, gl=2, overlap=0, tiers=_T),
 ]
